@@ -104,6 +104,35 @@ def impl_trace(shape, cfg):
     return ev, info
 
 
+def worker_trace(arg):
+    """Entry point of the child process: arg = [shape, cfg]."""
+    shape, cfg = arg
+    ev, info = impl_trace(tuple(shape), cfg)
+    return [ev, {'it_mg': int(info['it_mg'])}]
+
+
+_WORKER = None
+
+
+def safe_trace(shape, cfg):
+    """impl_trace in a child process.  Returns (ev, info) or raises Crashed."""
+    global _WORKER
+    if _WORKER is None:
+        _WORKER = V.Worker('props.c05', 'worker_trace')
+    kind, val = _WORKER.call([list(shape), cfg], timeout=900)
+    if kind != 'ok':
+        raise Crashed(f"{kind}: {val}")
+    ev, info = val
+
+    def tup(e):
+        return tuple(tuple(x) if isinstance(x, list) else x for x in e)
+    return [tup(e) for e in ev], info
+
+
+class Crashed(Exception):
+    pass
+
+
 def rand_cfg(rng):
     sc = rng.choice([0, 1, 2, 3, True, 12, 123, 31, 102, 3021])
     lr = rng.choice([0, 1, 2, 3, 4, 5, 6, 7, True, 56, 147, 70, 1234567])
@@ -207,14 +236,26 @@ def trace_correspondence(ctx, n, dis):
             shape[rng.randrange(3)] = rng.choice([16, 24, 32, 48])
         cases.append((tuple(shape), rand_cfg(rng)))
     texts, runs = [], []
+    crashed = set()
     for i, (shape, cfg) in enumerate(cases):
-        ev, info = impl_trace(shape, cfg)
+        try:
+            ev, info = safe_trace(shape, cfg)
+        except Crashed as e:
+            dis.append({'what': 'solver process aborted / raised on a legitimate configuration',
+                        'case': {'shape': list(shape), **{k: str(v) for k, v in cfg.items()}},
+                        'impl': str(e)[:400]})
+            crashed.add(i)
+            runs.append(([], {'it_mg': 0}, 0))
+            texts.append((f"c05_t_{i}", coq_trace_case(shape, cfg, 0)))
+            continue
         ncyc = int(info['it_mg'])
         runs.append((ev, info, ncyc))
         texts.append((f"c05_t_{i}", coq_trace_case(shape, cfg, ncyc)))
     res = V.coq_eval_many(texts)
     seen = set()
     for i, (shape, cfg) in enumerate(cases):
+        if i in crashed:
+            continue
         rc, out = res[f"c05_t_{i}"]
         brief = {'shape': list(shape), **{k: (v if not isinstance(v, bool) else str(v)) for k, v in cfg.items()}}
         if rc != 0:
@@ -387,7 +428,11 @@ def correspondence(ctx):
 def check_trace_property(shape, cfg):
     """Evaluate the PROPERTY (not the model) on the implementation's trace.
     Returns a hit dict or None."""
-    ev, info = impl_trace(shape, cfg)
+    try:
+        ev, info = safe_trace(shape, cfg)
+    except Crashed as e:
+        return dict(signature='solver process aborted / raised on a legitimate configuration',
+                    shape=list(shape), cfg={k: str(v) for k, v in cfg.items()}, observed=str(e)[:300])
     psc = pattern(cfg['semicoarsening'], [1, 2, 3], 3)
 
     def count(n):
@@ -416,6 +461,15 @@ def check_trace_property(shape, cfg):
             depth_seen.add(l)
         if e[0] == 'R':
             _, l, sc = e
+    # shapes: at level l every direction the pattern coarsens has n / 2^min(l, count) cells
+    # (count from the UNCAPPED halving rule), every other direction keeps n
+    def count_raw(n):
+        k = 0
+        while n % 2 == 0 and n > 2:
+            n //= 2
+            k += 1
+        return k
+    craw = [count_raw(n) for n in shape]
     # split the trace into fine-grid cycles: a cycle whose bottom level is 0 is a
     # single coarsest-level smoothing at level 0; any other cycle runs from a
     # restriction at level 0 to the matching prolongation at level 0
@@ -443,6 +497,14 @@ def check_trace_property(shape, cfg):
         if cfg['nu_post'] > 0:
             pos += 1
         seg = evs[st:pos]
+        for e in seg:
+            if e[0] == 'S':
+                want_shape = tuple(shape[d] // 2 ** min(e[1], craw[d]) if d in dirs else shape[d]
+                                   for d in range(3))
+                if tuple(e[2]) != want_shape:
+                    return dict(signature='shape at a level is not n / 2^min(level, halvings) in the '
+                                          'coarsened directions', **base, cycle=k, level=e[1],
+                                observed=list(e[2]), required=list(want_shape))
         mx = max(e[1] for e in seg)
         if mx != bottom:
             return dict(signature='recursion does not bottom out at the announced coarsest level',
